@@ -257,7 +257,7 @@ class Prims:
     def e_UnaryOp(self, ex, node, st):
         v = self.eval1(ex, node.operand, st)
         if isinstance(node.op, ast.Not):
-            if is_sym(v):
+            if is_sym(v) or (hasattr(v, "truth") and not isinstance(v, (bool, int))):
                 return [(st, z3.Not(zbool(v)))]
             if isinstance(v, SSeq):
                 return [(st, z3.Not(zbool(v)))]
@@ -940,6 +940,12 @@ class Prims:
             return x.length
         if isinstance(x, GhostMap):
             return x.size
+        if isinstance(x, Opaque):
+            n = x.attrs.get("length")
+            if n is None:
+                n = fresh("len")
+                st.assume(n >= 0)
+            return n
         return len(x)
 
     def m_sum(self, ex, st, a, k, node):
